@@ -569,3 +569,16 @@ Proof.
   - exists j. apply find_last_some_in in E as [Hj Hn]. auto.
   - exfalso. now apply (find_last_none_notin _ _ E).
 Qed.
+
+(* ---- tt_ismember_rows for ALL arguments (including operands without rows): membership flags and locations ---- *)
+Theorem tt_ismember_rows_okw (S T : mat) : okw S -> okw T ->
+  tt_ismember_rows S T = Ok (map (inrows T) S, map (loc T) S).
+Proof.
+  intros [->|HS] HT; [reflexivity|]. destruct HT as [->|HT].
+  - unfold tt_ismember_rows.
+    destruct (Z.eqb_spec (np_size2 S) 0) as [E|_]; [lia|]. change (np_size2 [] =? 0) with true. cbv iota.
+    unfold np_nrows, zlen. rewrite neg_full. unfold np_full. rewrite Nat2Z.id. f_equal. f_equal.
+    + unfold inrows. cbn [find_last find_last_from is_some]. symmetry. apply map_const_repeat.
+    + unfold loc. cbn [find_last find_last_from]. symmetry. apply map_const_repeat.
+  - rewrite tt_ismember_rows_bridge by lia. reflexivity.
+Qed.
